@@ -48,7 +48,8 @@ func gen(e *vlib.Env) gcw.Program {
 	}
 	// Message.UUID is not an identity: a quarter of the programs use empty or equal UUIDs (see gcw.Program.UUIDs)
 	p.UUIDs = []string{"", "", "empty", "same"}[vlib.HashStr(e.ID())%4]
-	p.MsgCtx = vlib.HashStr(e.ID()+"/msgctx")%3 == 0 // a third of the programs publish messages that carry (cancelled, soon cancelled, live) contexts
+	p.NilMetadata = vlib.HashStr(e.ID()+"/nil-metadata")%4 == 0 // messages without metadata are struct literals with a nil map
+	p.MsgCtx = vlib.HashStr(e.ID()+"/msgctx")%3 == 0            // a third of the programs publish messages that carry (cancelled, soon cancelled, live) contexts
 	p.EditAfterPublish = r.Chance(0.3)
 	np := r.Range(1, 4)
 	for i := 0; i < np; i++ {
@@ -69,6 +70,17 @@ func gen(e *vlib.Env) gcw.Program {
 				s.CancelFree = true
 			}
 			p.Subs = append(p.Subs, s)
+		}
+	}
+	// blocking mode, a quarter of the programs: the first-registered subscription of topic 0 withholds its Ack. Publish
+	// legitimately blocks, but every other current subscription must still get the message the holder got.
+	if p.Cfg.BlockPublishUntilSubscriberAck && vlib.HashStr(e.ID()+"/holder")%4 == 0 {
+		for i := range p.Subs {
+			if p.Subs[i].Topic == 0 && !p.Subs[i].During {
+				p.Subs[i].NeverAck = true
+				p.Subs[i].CancelAt, p.Subs[i].CancelFree = -1, false
+				break
+			}
 		}
 	}
 	return p
@@ -97,6 +109,49 @@ func run(e *vlib.Env) vlib.Result {
 	rn := gcw.Start(e, prog)
 
 	oc, dump := vlib.WaitClosed(rn.PubsDone(), vlib.WD)
+	holder := -1
+	for i, sp := range prog.Subs {
+		if sp.NeverAck {
+			holder = i
+		}
+	}
+	if oc == vlib.Stuck && holder >= 0 {
+		// publishers wait for the holder's Ack. Whatever the holder received was fanned out: every other subscription of
+		// that topic that existed before the Publish call must have received it too, although the holder never settles.
+		held := map[string]bool{}
+		for _, s := range rn.SubRecs() {
+			if s.ID == holder {
+				for _, d := range s.Dels() {
+					held[d.UUID] = true
+				}
+			}
+		}
+		checked := 0
+		for _, p := range rn.PubRecs() {
+			if !held[p.UUID] || p.Topic != prog.Subs[holder].Topic {
+				continue
+			}
+			for _, s := range rn.SubRecs() {
+				if s.ID == holder || s.Err != "" || s.Spec.Topic != p.Topic || s.Spec.NeverAck || s.CancelStart.Load() != 0 || s.End == 0 || !(s.End < p.Start) {
+					continue
+				}
+				checked++
+				got := false
+				for _, d := range s.Dels() {
+					if d.UUID == p.UUID {
+						got = true
+					}
+				}
+				if !got {
+					res.Fail("lost-message", "blocking mode: %s was delivered to subscription %d, which withholds its Ack, but never to subscription %d of the same topic, which existed before the Publish call (quiescent): one slow subscriber must not keep the message from the others", p.UUID, holder, s.ID)
+				}
+			}
+		}
+		res.Count("holder_cases", 1)
+		res.Count("deliveries_checked_beside_a_withheld_ack", checked)
+		rn.CancelSub(holder)
+		oc, dump = vlib.WaitClosed(rn.PubsDone(), vlib.WD)
+	}
 	if oc == vlib.Stuck {
 		res.Fail("publish-stuck", "a Publish call never returned although every subscriber settles (process quiescent)")
 		res.Witness = dump
@@ -237,6 +292,8 @@ func judge(rn *gcw.Run, res *vlib.Result) {
 			res.Fail("publish-error", "Publish of %s on an open Pub/Sub failed: %s", p.UUID, p.Err)
 		}
 	}
+	res.Count("published_with_nil_metadata_map", int(rn.NilMetaPublished.Load()))
+	res.Count("received_copies_with_nil_metadata_map", int(rn.NilMetaDelivered.Load()))
 	res.Count("deliveries", totalDel)
 	res.Count("redeliveries_after_nack", redeliveries)
 	res.Count("publishes", len(pubs))
